@@ -49,14 +49,45 @@ def same_dim(a, b):
     return cur().must(ta == tb)
 
 
+def _memo(fn):
+    """cache closure results per (path, index tuple): closures are pure, and without this layered stores and
+    arithmetic re-evaluate shared sub-closures exponentially often"""
+    if getattr(fn, "_memoized", False):
+        return fn
+    cache = {}
+
+    def g(idx):
+        e = cur()
+        try:
+            key = (id(e), e.path_id, e.scope_id) + tuple(
+                i if isinstance(i, int) else ("z", i.t.get_id()) if isinstance(i, Num) else ("o", id(i)) for i in idx)
+        except Exception:
+            return fn(idx)
+        if key in cache:
+            return cache[key]
+        v = fn(idx)
+        cache[key] = v
+        return v
+    g._memoized = True
+    return g
+
+
 class Buffer:
     def __init__(self, shape, fn, dtype="float", origin=None):
         self.id = next(_ids)
         self.shape = tuple(shape)
-        self.fn = fn              # base index tuple -> value; rebound on every store
+        self._fn = _memo(fn) if fn is not None else None
         self.dtype = dtype
         self.origin = origin or ("fresh#%d" % self.id)
         self.writes = 0
+
+    @property
+    def fn(self):           # base index tuple -> value; rebound on every store
+        return self._fn
+
+    @fn.setter
+    def fn(self, f):
+        self._fn = _memo(f)
 
 
 def _ident(idx):
@@ -734,17 +765,18 @@ def mask_select_axis0(a, mask, rest=()):
     # CompressInfo is reused when the masks are provably equal (lets contract text name "the filtered diagram")
     info = None
     reg = e.ghost.setdefault("__compress", [])
-    for (a2, w2, mf2, info2) in reg:
-        if a2 is a and w2 == a.buf.writes:
-            i = Num(z3.Int(e.uniq("meq")))
-            rng = z3.And(i.t >= 0, i.t < to_z3(a.shape[0]))
-            same = e.under(rng, lambda: e.must(zb(mf((i,))) == zb(mf2((i,)))))
-            if same:
-                info = info2
-                break
+    for (n2, mf2, info2) in reg:
+        if not same_dim(n2, a.shape[0]):
+            continue
+        i = Num(z3.Int(e.uniq("meq")))
+        rng = z3.And(i.t >= 0, i.t < to_z3(a.shape[0]))
+        same = e.under(rng, lambda: e.must(zb(mf((i,))) == zb(mf2((i,)))))
+        if same:
+            info = info2
+            break
     if info is None:
         info = CompressInfo(e, lambda i: mf((i,)), a.shape[0], "m%d" % next(_ids))
-        reg.append((a, a.buf.writes, mf, info))
+        reg.append((a.shape[0], mf, info))
     f = a.snapshot_fn()
 
     def fn(idx):
@@ -855,7 +887,7 @@ def store_array(a, key, value):
         if len(masks) != 1:
             raise Unsupported("several masks in store")
         ax, m = masks[0]
-        if m.ndim == a.ndim and len(key) == 1:
+        if m.ndim == a.ndim and len(key) == 1 and a.ndim > 1:
             _store_fullmask(a, m, value)
             return
         if ax != 0 or m.ndim != 1:
@@ -1133,7 +1165,9 @@ class SymSeq:
 def _seq_ite(c, fa, fb):
     if isinstance(c, bool):
         return fa() if c else fb()
-    a, b = fa(), fb()
+    e = cur()
+    a = e.under(zb(c), fa)
+    b = e.under(z3.Not(zb(c)), fb)
     if isinstance(a, (list, tuple)) and isinstance(b, (list, tuple)) and len(a) == len(b):
         return type(a)(_seq_ite(c, (lambda x=x: x), (lambda y=y: y)) for x, y in zip(a, b))
     return ite(c, a, b)
